@@ -997,7 +997,17 @@ func ForeignAlternatives(c *HintCall) []Alternative {
 			}
 		}
 	}
-	// other
+	// other: a Goldilocks-valued output given as value + p (the same residue, not canonical), then every output + 1
+	for i := range h {
+		if h[i].Cmp(P) < 0 {
+			o := make([]*big.Int, n)
+			for j := range o {
+				o[j] = new(big.Int).Set(h[j])
+			}
+			o[i] = new(big.Int).Add(o[i], P)
+			alts = append(alts, Alternative{Family: fmt.Sprintf("other/output-%d-plus-p", i), Out: o, Global: true})
+		}
+	}
 	for i := range h {
 		o := make([]*big.Int, n)
 		for j := range o {
